@@ -335,7 +335,11 @@ func (m *Module) AssignGlobalIDs() error {
 				got := n.ID()
 				return errors.Errorf("invalid global ID, expected %s, got %s", enc.GlobalID(want), enc.GlobalID(got))
 			}
-			n.SetID(id)
+			if n.ID() != id {
+				// Only write when the ID changes: printers running on other
+				// goroutines read the ID without holding the lock.
+				n.SetID(id)
+			}
 			id++
 		}
 		return nil
